@@ -125,3 +125,6 @@ package conversions
 //@   loop 3 invariant @top_in_dom forall j int :: 0 <= j && j < len(top) ==> dom(s.ConversionRequests)[top[j]]
 //@   loop 3 invariant @top_fresh len(top) == 0 || fresh(top)
 //@   loop 3 invariant @visited_in_dom forall k string :: visited[k] ==> dom(s.ConversionRequests)[k]
+//@   loop 1 no-break
+//@   loop 2 no-break
+//@   loop 3 no-break
